@@ -1634,7 +1634,13 @@ class FlowIR(object):
                     'no': False,
                 }[s.lower()]
 
-            for key, convert in [ ('replicate', int), ('aggregate', to_bool)]:
+            def to_int(s):
+                if isinstance(s, bool):
+                    # VV: bool is a subclass of int, but True/False are not a number of replicas
+                    raise ValueError("Boolean value for replicate")
+                return int(s)
+
+            for key, convert in [ ('replicate', to_int), ('aggregate', to_bool)]:
                 label = '%s.workflowAttributes.%s' % (ref, key)
 
                 try:
